@@ -96,9 +96,9 @@ def run(ctx):
     reqs, wants, infos = [], [], []
     kinds = {}
     distinct = set()
-    n = ctx.n(14, 500)
+    n = ctx.n(18, 500)
     for t in range(n):
-        adv = [None, "long-parallel", "all-at-once", "trailing-parallel", None][t % 5]
+        adv = [None, "long-parallel", "all-at-once", "trailing-parallel", "queue-full", None][t % 6]
         cfg = gen_config(rng, adv)
         # every third configuration runs detached (canvas without -d): the launcher's exit status says nothing then
         detach = (t % 3 == 2)
@@ -118,6 +118,29 @@ def run(ctx):
         kinds[adv or "random"] = kinds.get(adv or "random", 0) + 1
         if any(s[1] for s in cfg["steps"]) and len(started) >= 2:
             distinct.add((tuple(cfg["steps"]), tuple(cfg["skip"]), cfg["ncpu"]))
+    # ---- resumed invocations (canvas -r): the loop runs on the schedule listed from the resume point, the same
+    # order, barriers and stop-at-failure hold there; configurations that begin with parallel steps
+    import os
+    for t in range(ctx.n(2, 40)):
+        npar = [2, 3, 1][t % 3] if t < 3 else rng.randint(1, 3)
+        first = [("p%d" % (i + 1), True, rng.choice([0, 100]), 0) for i in range(npar)]
+        failing = ("build", False, 50, rng.choice([1, 3]))
+        tail = [("check", False, rng.choice([300, 600]), 0 if t % 2 == 0 else 2), ("pack", rng.random() < 0.5, 100, 0), ("last", False, 0, 0)]
+        cfg1 = dict(steps=first + [failing] + tail, skip=[], cmdline_skip=[], ncpu=2)
+        r1 = cr.run(cfg1)
+        analyse(ctx, cfg1, dict(r1, detached=False), "canvas -d (to be resumed)")
+        if not r1["builddir"]:
+            continue
+        for f in ("probe.log", "hook.log", "mail.log"):
+            if os.path.exists(os.path.join(r1["root"], f)):
+                os.unlink(os.path.join(r1["root"], f))
+        # the failing step now takes its time and succeeds; the step after it would overtake it if it were
+        # not waited for
+        cfg2 = dict(cfg1, steps=first + [("build", False, 500, 0)] + tail)
+        r2 = cr.run(cfg2, resume_dir=r1["builddir"], root=r1["root"], keep_root=True)
+        view = dict(cfg2, steps=cfg2["steps"][npar:])
+        analyse(ctx, view, dict(r2, detached=False), "canvas -d -r (resumed at the step that failed)")
+        kinds["resumed"] = kinds.get("resumed", 0) + 1
     # ---- robsd-wait itself (the real source with the kqueue shim) on real child processes
     import subprocess
     import time
